@@ -232,6 +232,13 @@ impl Node {
                 let net_addr = NetworkAddress::from_register_address(*register.address());
                 let key = net_addr.to_record_key();
                 let pretty_key = PrettyPrintRecordKey::from(&key);
+                // check if the deserialized value's RegisterAddress matches the record's key
+                if record.key != key {
+                    warn!(
+                        "Record's key {pretty_key:?} does not match with the value's RegisterAddress, ignoring PUT."
+                    );
+                    return Err(Error::RecordKeyMismatch);
+                }
                 debug!("Got record to store without payment for register at {pretty_key:?}");
                 if !self.validate_key_and_existence(&net_addr, &key).await? {
                     debug!("Ignore store without payment for register at {pretty_key:?}");
